@@ -36,6 +36,8 @@ fn build_filter_msg(kinds: &[&str], bad: Option<usize>, id: &[u8; 12]) -> Vec<u8
                 "MI" => Item::Mi(key.clone(), wrong),
                 "SHA" => Item::Sha(key.clone(), wrong),
                 "FP" => Item::Fp(wrong),
+                // a registered attribute whose value does not decode (SOFTWARE that is not UTF-8)
+                "BAD" => Item::Raw(obs::T_SOFTWARE, vec![b'x', 0xC3, 0x28, b'y', i as u8]),
                 "UNK" => Item::Raw(
                     0x7F00 + i as u16,
                     (0..(i % 6)).map(|j| (0xA0 + i + j) as u8).collect(),
@@ -95,7 +97,24 @@ fn filter_record(kinds: &[&str], bad: Option<usize>, rng: &mut StdRng) -> Value 
             }
         }
     }
-    json!({"op":"filter","kinds":kinds,"valid":valid,"vals":vals,"len":bytes.len(),"res":res,
+    // a context taken from DecoderContext::default() directly, not from the builder
+    let dflt = {
+        let dec = stun_rs::MessageDecoderBuilder::default().with_context(stun_rs::DecoderContext::default()).build();
+        match catch_unwind(AssertUnwindSafe(|| dec.decode(&bytes))) {
+            Err(_) => json!({"ok":false,"panic":true,"idx":[],"unk":[],"size":-1}),
+            Ok(Err(_)) => json!({"ok":false,"panic":false,"idx":[],"unk":[],"size":-1}),
+            Ok(Ok((msg, size))) => {
+                let idx = codec::returned_indices(msg.attributes(), &p.attrs);
+                let unk: Vec<String> = msg.attributes().iter().filter_map(|a| match a {
+                    StunAttribute::Unknown(u) => Some(u.attribute_data().map(obs::hex).unwrap_or_else(|| "none".to_string())),
+                    _ => None,
+                }).collect();
+                json!({"ok":true,"panic":false,"idx":idx,"unk":unk,"size":size})
+            }
+        }
+    };
+    let op = if kinds.contains(&"BAD") { "filterbad" } else { "filter" };
+    json!({"op":op,"kinds":kinds,"valid":valid,"vals":vals,"len":bytes.len(),"res":res,"dflt":dflt,
            "bad": bad.map(|b| b as i64 + 1).unwrap_or(0)})
 }
 
@@ -166,6 +185,17 @@ fn cmd_filter(args: &[String]) {
         for s in all_seqs(&kinds, len) {
             emit(&s, &mut rng, &mut n);
             nseq += 1;
+        }
+    }
+    if flag(args, "--unk") {
+        let kb: Vec<&'static str> = vec!["O", "MI", "SHA", "FP", "BAD"];
+        for len in 1..=4usize.min(maxlen) {
+            for s in all_seqs(&kb, len) {
+                if s.contains(&"BAD") {
+                    emit(&s, &mut rng, &mut n);
+                    nseq += 1;
+                }
+            }
         }
     }
     for _ in 0..sample {
@@ -571,7 +601,7 @@ fn rt_record(method: u16, class: u8, txid: [u8; 12], attrs: &[(String, Value)], 
     } else {
         rec["bytes"] = json!([]);
         // big messages: logical values are not shipped to TLC, the harness compares them
-        rec["attrs"] = json!([]);
+        rec["attrs"] = Value::Array(tail.iter().map(|k| json!({"kind":k,"fields":{}})).collect());
     }
     // decode (default decoder)
     let dec = stun_rs::MessageDecoderBuilder::default().build();
@@ -656,6 +686,19 @@ fn cmd_roundtrip(args: &[String]) {
                 emit([1u16, 3, 0, 0xFFF, 0x80, 0x7F][cyc % 6], (cyc % 4) as u8, txid, &[(k.to_string(), v)],
                      TAILS[cyc % TAILS.len()], cyc % 3, &mut count);
                 cyc += 1;
+            }
+        }
+        // bodies at the upper end of the 16-bit length field with every tail: the integrity /
+        // fingerprint attributes then start at offsets around 65,536
+        for target in [65_532usize, 65_528, 65_524, 65_496] {
+            for (ti, tail) in TAILS.iter().enumerate() {
+                let tsize: usize = tail.iter().map(|t| match *t { "MessageIntegrity" => 24, "MessageIntegritySha256" => 36, _ => 8 }).sum();
+                let dlen = target - tsize - 4;
+                let data: Vec<u8> = (0..dlen).map(|i| (i * 31 + ti) as u8).collect();
+                let mut txid = [0u8; 12];
+                rng.fill(&mut txid);
+                emit(1, (ti % 4) as u8, txid, &[("Data".to_string(), json!({"b": bytes_json(&data)}))], tail,
+                     ti % keys.len(), &mut count);
             }
         }
         // random messages
@@ -1205,6 +1248,30 @@ fn cmd_fuzz(args: &[String]) {
         let mut id = [0u8; 12];
         rng.fill(&mut id);
         corpus.push(obs::build(rng.random_range(0..0x1000), rng.random_range(0..4), &id, &items));
+    }
+    // text-bearing attributes longer than the library accepts (a well-formed sender never produces
+    // them, so the code that reports them is reached from the wire only), filled with 2-, 3- and
+    // 4-byte characters behind 0-3 ASCII bytes so that every byte offset is a non-boundary somewhere
+    for (t, prefix) in [(obs::T_USERNAME, vec![]), (obs::T_REALM, vec![]), (obs::T_NONCE, vec![]), (obs::T_SOFTWARE, vec![]),
+                        (obs::T_ERROR, vec![0u8, 0, 4, 20]), (zoo::type_code("AddressErrorCode"), vec![0u8, 1, 4, 40]),
+                        (zoo::type_code("Padding"), vec![])] {
+        for unit in ["\u{e9}", "\u{4e2d}", "\u{1f600}", "\u{c3}\u{a9}"] {
+            for lead in 0..4usize {
+                for total in [510usize, 764, 800, 1300] {
+                    let mut text = "a".repeat(lead);
+                    while text.len() + unit.len() <= total {
+                        text.push_str(unit);
+                    }
+                    let mut v = prefix.clone();
+                    v.extend_from_slice(text.as_bytes());
+                    let mut id = [0u8; 12];
+                    rng.fill(&mut id);
+                    let bytes = obs::build(1, obs::CLASS_ERROR, &id, &[Item::Raw(t, v)]);
+                    writeln!(f, "{}", fuzz_record(&bytes)).unwrap();
+                    count += 1;
+                }
+            }
+        }
     }
     for i in 0..n {
         let bytes = match i % 10 {
